@@ -24,7 +24,7 @@ from ser import Ser, Unsupported
 from props import c03 as J
 
 LEAN_MODULE = "Optyx.Props.C17"
-EXTRA_MODULES = ["Optyx.Props.PinsC17", "Optyx.Props.BuildTie"]   # transcription anchors (harness/source_pins.py)
+EXTRA_MODULES = ["Optyx.Props.PinsC17", "Optyx.Props.BuildTie", "Optyx.Props.ClosurePathTie"]   # transcription anchors (harness/source_pins.py)
 THEOREMS = [
     "Optyx.Props.Closures.closureTables_agree",
     "Optyx.Props.Closures.sanitizeShape_agrees",
@@ -39,6 +39,10 @@ THEOREMS = [
     "Optyx.Props.C17.compileHessian_true_second_partial",
     "Optyx.Props.BuildTie.compile_step",
     "Optyx.Props.BuildTie.compileVec_step",
+    "Optyx.Props.ClosurePathTie.powerGradient_path",
+    "Optyx.Props.ClosurePathTie.unaryGradient_path",
+    "Optyx.Props.ClosurePathTie.compileGradient_path",
+    "Optyx.Props.ClosurePathTie.compileHessian_path",
     "Optyx.Props.PinsC17.anchors",
 ]
 ASSUMPTIONS = [
